@@ -2,6 +2,7 @@
 # usage: tools/seedregress.sh [ids...]   -- re-applies every kept seeded change to /repo (one at a time, undone straight afterwards),
 # runs the check of its property and records whether it is still reported.  Evidence files are restored afterwards.
 cd /verif
+mkdir -p /tmp/sp
 IDS="$@"; [ -z "$IDS" ] && IDS=$(ls seeded)
 OUT=/tmp/sp/regress.log; : > $OUT
 for id in $IDS; do
